@@ -278,3 +278,34 @@ func seqStrict(xs, ys []types.MalType) bool {
 	}
 	return true
 }
+
+// HasMultiMap reports whether v contains a map or set with more than one entry (printed in
+// Go's random order).
+func HasMultiMap(v types.MalType) bool {
+	switch x := v.(type) {
+	case types.List:
+		for _, e := range x.Val {
+			if HasMultiMap(e) {
+				return true
+			}
+		}
+	case types.Vector:
+		for _, e := range x.Val {
+			if HasMultiMap(e) {
+				return true
+			}
+		}
+	case types.HashMap:
+		if len(x.Val) > 1 {
+			return true
+		}
+		for _, e := range x.Val {
+			if HasMultiMap(e) {
+				return true
+			}
+		}
+	case types.Set:
+		return len(x.Val) > 1
+	}
+	return false
+}
